@@ -27,7 +27,7 @@ func init() { core.Register(sim{}) }
 
 func (sim) Name() string { return "walletsim" }
 func (sim) Props() []string {
-	return []string{"C09", "C15", "C20", "C06", "C16", "C04", "C01", "C03", "C05", "C08", "C13"}
+	return []string{"C09", "C15", "C20", "C06", "C16", "C04", "C01", "C03", "C05", "C08", "C13", "C10"}
 }
 func (sim) Level(string) string { return "exploration" }
 func (sim) Rule(prop string) string {
